@@ -244,6 +244,11 @@ def gen(rng, tier):
                 yield from chunks(t.dump(), sweep(t, six + [2], six))
         for t in small_trees(5):
             yield from chunks(t.dump(), sweep(t, six, [c["visitSkip"], c["visitPop"], 100]))
+    # deleting the member being visited: first, middle, last member; nested
+    del_t = "{61:i1,62:[i2,i3],63:{64:i4,65:i5},66:n}"
+    yield {"lines": ["visitdel %s n1:%d" % (del_t, c["visitSkip"]), "visitdel %s n2:%d" % (del_t, c["visitSkip"]),
+                     "visitdel %s n5:%d" % (del_t, c["visitSkip"]), "visitdel %s n6:%d,n7:%d" % (del_t, c["visitSkip"], c["visitSkip"]),
+                     "visitdel %s n9:%d" % (del_t, c["visitSkip"]), "visitdel %s n1:%d,n2:%d,n5:%d,n9:%d" % ((del_t,) + (c["visitSkip"],) * 4)]}
     # the documented example / the seeded-defect document: every single deviation (thorough: every pair too)
     yield from chunks(demo.dump(), itertools.chain(["-"], sweep(demo, six + [2], [])))
     if tier != "quick":
@@ -263,4 +268,11 @@ def gen(rng, tier):
         for j in range(rng.choice([3, 4, 5])):
             ff = "" if rng.chance(0.8) else " %d" % rng.choice([0, 1, 2, -1, INT_MAX])
             lines.append("visit %s %s%s" % (txt, rand_schedule(rng, t, valid, invalid), ff))
+        if rng.chance(0.35) and t.nodes() > 1:
+            # the callback deletes the member it is called for (and skips it): allowed while iterating, and the walk of
+            # the remaining members goes on as if the member had merely been skipped
+            rules = ["n%d:%d" % (rng.randrange(1, t.nodes()), c["visitSkip"]) for _ in range(rng.choice([1, 2, 3, 5]))]
+            if rng.chance(0.3):
+                rules.append("%d:%d" % (rng.randrange(1, t.nodes() + t.containers() + 1), rand_code(rng, valid, invalid)))
+            lines.append("visitdel %s %s" % (txt, ",".join(rules)))
         yield {"lines": lines}
